@@ -531,3 +531,84 @@ Example merge_history_example :
   digest_close (digest_of (mabs w 2)) (digest_of (mabs w 3)) = true /\
   List.length (dg_len (digest_of (mabs w 2))) = 6%nat.
 Proof. vm_compute. repeat split. Qed.
+
+(* ---------------------------------------------------------------------------------------------
+   Wave 8: exception safety of SplitDistribution.count_splits_on_tree (refused trees).
+   Gen/SplitDist.v gen_count_splits_on_tree_exc is compiled from the AST: the statements that PRECEDE the
+   namespace assert / the guarded tree.calc_node_ages() call give the state of `self` with which each
+   refusal is reached (py/dv/c05_gen_impl.py compile_raise_points), so the order of the tallies relative
+   to the raising call is part of what is proved. *)
+From DV Require Import Model.C05Model5 Proofs.C05GenRefuse.
+
+(* a tree over a foreign namespace (ns_ok = false): AssertionError, `self` exactly as it was *)
+Theorem gen_count_refused_foreign_namespace :
+  forall (c : config) (x : sdx) (t : tree_in) (b : bool) (dl : option Q) (ages_ok : bool),
+  gen_count_splits_on_tree_exc c x t b dl false ages_ok = (x, Err AssertErr).
+Proof. exact gen_count_refused_foreign_l. Qed.
+Print Assumptions gen_count_refused_foreign_namespace.
+
+(* a non-ultrametric tree offered while node ages are tracked: the UltrametricityError (a ValueError) leaves
+   the weight sum, the split counts, the per-split edge-length and node-age lists, the rooting set, the
+   frequency cache and the summary caches as they were; only total_trees_counted may differ, and it does not
+   decrease (the working tree increments it before calc_node_ages; a tree that moves the increment after
+   the call satisfies the same statement) *)
+Theorem gen_count_refused_nonultrametric :
+  forall (c : config) (x : sdx) (t : tree_in) (b : bool) (dl : option Q),
+  ignore_ages c = false ->
+  exists n : Z, total (x_sd x) <= n /\
+    gen_count_splits_on_tree_exc c x t b dl true false
+    = (mkSdx (mkSd n (sum_w (x_sd x)) (rootings (x_sd x)) (counts (x_sd x)) (elens (x_sd x)) (nages (x_sd x))
+                   (freqs (x_sd x)) (counted_for_freqs (x_sd x)))
+             (x_len_summ x) (x_age_summ x) (x_counted_for_summ x),
+       Err ValueErr).
+Proof. exact gen_count_refused_nonultra_l. Qed.
+Print Assumptions gen_count_refused_nonultrametric.
+
+(* every other offer (node ages ignored, or the tree is ultrametric) is the model's count_tree *)
+Theorem gen_count_accepted :
+  forall (c : config) (x : sdx) (t : tree_in) (b ages_ok : bool),
+  ignore_ages c = true \/ ages_ok = true ->
+  gen_count_splits_on_tree_exc c x t b (default_len c) true ages_ok
+  = (upd_sd x (fst (count_tree c (x_sd x) t)), Ok (snd (count_tree c (x_sd x) t))).
+Proof. exact gen_count_accepted_l. Qed.
+Print Assumptions gen_count_accepted.
+
+(* hypotheses satisfiable: a distribution that counted a weight-3 tree refuses it the second time and keeps
+   weight sum 3, its counts and its node-age lists *)
+Example gen_count_refused_satisfiable :
+  let d := fst (count_tree ex_r_cfg sd_empty ex_r_tree) in
+  let '(x, o) := gen_count_splits_on_tree_exc ex_r_cfg (mkSdx d None None 0) ex_r_tree false None true false in
+  o = Err ValueErr /\ sum_w (x_sd x) = sum_w d /\ counts (x_sd x) = counts d /\ nages (x_sd x) = nages d
+  /\ Qeq_bool (sum_w d) 3 = true.
+Proof. exact gen_count_refused_example. Qed.
+
+(* a caller offers trees one after the other (offer_all: the generated count with its error outcome, every
+   refusal caught, the history continued): the distribution is the one of the ACCEPTED trees alone, up to
+   total_trees_counted *)
+Theorem offers_equal_accepted :
+  forall (c : config) (l : list (tree_in * option refusal)),
+  exists n : Z, total (count_trees c sd_empty (accepted c l)) <= n /\
+    offer_all c sd_empty l =
+    (let f := count_trees c sd_empty (accepted c l) in
+     mkSd n (sum_w f) (rootings f) (counts f) (elens f) (nages f) (freqs f) (counted_for_freqs f)).
+Proof. exact offers_equal_accepted_l. Qed.
+Print Assumptions offers_equal_accepted.
+
+(* ... and every frequency it reports afterwards is the weighted fraction of the ACCEPTED trees containing
+   the split (the refused trees enter neither numerator nor normaliser) *)
+Theorem refused_history_frequencies :
+  forall (c : config) (l : list (tree_in * option refusal)) (s : Z),
+  (forall t, In t (accepted c l) -> NoDup (splits_of t)) ->
+  ~ (total_weight c (accepted c l) == 0)%Q ->
+  (snd (query (offer_all c sd_empty l) s)
+   == weight_containing c s (accepted c l) / total_weight c (accepted c l))%Q.
+Proof. exact refused_history_frequencies_l. Qed.
+Print Assumptions refused_history_frequencies.
+
+Example refused_history_satisfiable :
+  let l := [(ex_r_tree, None); (ex_r_tree, Some RNotUltrametric); (ex_r_tree, None); (ex_r_tree, Some RForeignNs);
+            (ex_r_tree, None)] in
+  List.length (accepted ex_r_cfg l) = 3%nat /\
+  Qeq_bool (snd (query (offer_all ex_r_cfg sd_empty l) 3)) 1 = true /\
+  Qeq_bool (sum_w (offer_all ex_r_cfg sd_empty l)) 9 = true.
+Proof. exact refused_history_example. Qed.
